@@ -140,6 +140,53 @@ def search(ctx):
                 vios.append({"input": {"stdin": stdin[:20000].decode("utf-8", "replace"), "stdin_len": len(stdin), "argv": args, "user_config": CH.USER_CONFIG, "project_config": CH.PROJECT_CONFIG}, "observed": {"exit": rc, "stdout": out[:500].decode("utf-8", "replace"), "stderr_tail": err[-300:].decode("utf-8", "replace")}, "required": bad, "oracle": "hook-total"})
             elif len(samples) < 3 and value is not None:
                 samples.append({"stdin": value, "argv": args, "stdout": got})
+        # every handler on odd option lists (a value-taking option as the last word, a value that starts with a dash, unknown
+        # letters in a cluster, a flag given a value …): in-process first – anything that is not an ordinary return (SystemExit from
+        # an option parser, output written by the handler) – then confirmed on the real hook
+        import ast as _ast
+        import contextlib
+        import importlib
+        import io
+        import shlex
+
+        import dippy.cli as CLI
+
+        generic = ["-o", "--to", "-", "--", "''", "-cx", "--silent=yes", "-out.txt", "f", "'x y'", "=", "--=", "-h", "--help", "-f", "-t", "--output", "-o-", "--no-such-option", "-1", "+x", "é", "--from=", "-abcdefgh", "-o -out.txt"]
+        suspects = []
+        cfg0 = C.parse_config("")
+        per = ctx.scale(25, 400) * (2 if ctx.broken else 1)
+        for cmdname, modname in sorted(CLI.KNOWN_HANDLERS.items()):
+            try:
+                mod = importlib.import_module("dippy.cli." + modname)
+                own = sorted({n.value for n in _ast.walk(_ast.parse(open(mod.__file__).read())) if isinstance(n, _ast.Constant) and isinstance(n.value, str) and n.value.startswith("-") and " " not in n.value and len(n.value) < 30})
+            except Exception:  # noqa: BLE001
+                own = []
+            for _ in range(per):
+                words = [r.pick(own) if own and r.chance(0.6) else r.pick(generic) for _ in range(r.randint(1, 4))]
+                cmd = cmdname + " " + " ".join(shlex.quote(x) if not x.startswith("'") else x for x in words)
+                if r.chance(0.2):
+                    cmd = "cat f | " + cmd
+                stats["handler_sweep"] += 1
+                so, se = io.StringIO(), io.StringIO()
+                what = None
+                try:
+                    with contextlib.redirect_stdout(so), contextlib.redirect_stderr(se):
+                        analyze(cmd, cfg0, __import__("pathlib").Path(w.proj))
+                except Exception:  # noqa: BLE001
+                    what = None  # caught by main(): the subprocess runs above and the fault injection below cover that path
+                except BaseException as e:  # noqa: BLE001
+                    what = type(e).__name__
+                if what is None and (so.getvalue() or se.getvalue()):
+                    what = "output"
+                if what and len(suspects) < 40:
+                    suspects.append((cmd, what))
+        stats["handler_sweep_suspects"] = len(suspects)
+        sjobs = [{"stdin": H.claude_input(cmd, cwd=w.proj), "home": w.s.home, "args": [], "cwd": w.proj} for cmd, _ in suspects]
+        for (cmd, what), (rc, out, err) in zip(suspects, H.run_many(sjobs) if sjobs else []):
+            stats["evaluations"] += 1
+            got = CH.parse_stdout(out)
+            if rc != 0 or b"Traceback" in err or not (len(got) == 1 and "json" in got[0] and isinstance(got[0]["json"], dict)):
+                vios.append({"input": {"stdin": H.claude_input(cmd, cwd=w.proj).decode(), "command": cmd, "argv": []}, "observed": {"exit": rc, "stdout": out[:300].decode("utf-8", "replace"), "stderr_tail": err[-300:].decode("utf-8", "replace"), "in_process": what}, "required": "exit 0 and exactly one JSON object on stdout, whatever the option list of the command", "oracle": "hook-total(handler sweep)"})
         # injected internal failures
         faults = []
         for site in ("analyze", "load", "logdecision", "parse", "handler"):
